@@ -548,3 +548,36 @@ fn a_accept_twin_must_fail() {
     assert!(r.is_some());
     assert!(tokio::model_spawned() == 0, "twin: wrong oracle");
 }
+
+// @h props=C08 tier=quick t=1800 sub=worker-accept-backlog
+// @fn wtransport/src/driver/mod.rs worker::Worker::accept_uni (sliced, incl. the task it spawns)
+// @bound the application is not accepting: the wt hand-off queue has no free slot (0..1 slots on the h3 queue); one WebTransport stream is ready on the connection; at most 2 polls, between them a slot may or may not be freed; the task runs to completion
+// @oracle a WebTransport stream pulled from the connection ends up on the wt queue: pulled == queued. With the queue full the worker must wait (the stream stays with quinn, where the peer's flow control holds it) - it must not pull the stream and discard it
+// @assume as a_worker_accept_uni_task
+// @outside as a_worker_accept_uni_cancel
+#[kani::proof]
+#[kani::unwind(6)]
+fn a_worker_accept_uni_backlog() {
+    tokio::model_run_tasks(true);
+    let conn = ModelConnection::new(StreamScript { outcome: 1, session: sid(1), suspends: 0 });
+    conn.uni_ready.set(1);
+    let h3 = ChanState::new(any_upto(1), false);
+    let wt = ChanState::new(0, false);
+    let h3_tx: Sender<Result<StreamUniRemoteH3, DriverError>> = Sender::model(&h3);
+    let wt_tx: Sender<StreamUniRemoteWT> = Sender::model(&wt);
+    let freed: bool = kani::any();
+    {
+        let mut fut = std::pin::pin!(WorkerA::accept_uni(&conn, &h3_tx, &wt_tx));
+        if poll_pin(fut.as_mut()).is_pending() {
+            if freed {
+                wt.free.set(1);
+                h3.free.set(1);
+            }
+            let _ = poll_pin(fut.as_mut());
+        }
+    }
+    assert!(conn.uni_pulled.get() == wt.sent.get(), "a WebTransport stream was pulled from the connection but not queued for the application");
+    assert!(h3.sent.get() == 0, "WebTransport stream routed to the h3 queue");
+    kani::cover!(conn.uni_pulled.get() == 1, "delivered once a slot was freed");
+    kani::cover!(conn.uni_pulled.get() == 0, "left with the transport while the queue is full");
+}
